@@ -87,6 +87,14 @@ def c20_job(ctx):
             for std in stds:
                 for cxx in COMPILERS:
                     add("header", compile_cmd(cxx, std, repo, ["-fsyntax-only", p]), dict(header=h, twice=twice, std=std, cxx=cxx, src=p))
+    # ---- 2b. the repository's own documented examples (examples/*.cpp)
+    exdir = os.path.join(repo, "examples")
+    if os.path.isdir(exdir):
+        for fn in sorted(os.listdir(exdir)):
+            if fn.endswith(".cpp"):
+                for std in stds:
+                    for cxx in COMPILERS:
+                        add("example", compile_cmd(cxx, std, repo, ["-fsyntax-only", os.path.join(exdir, fn)]), dict(example=fn, std=std, cxx=cxx, src=os.path.join(exdir, fn)))
     results = {}
     with concurrent.futures.ThreadPoolExecutor(max_workers=build.NJOBS) as pool:
         futs = {pool.submit(run, cmd): (name, cmd, meta) for name, cmd, meta in tasks}
@@ -108,6 +116,13 @@ def c20_job(ctx):
                         nontrivial.add("%s|%s|%s" % (cid, meta["std"], meta["cxx"]))
             else:
                 failed_bundles.append((meta, log))
+        elif name == "example":
+            evaluations += 1
+            nontrivial.add("example|%s|%s|%s" % (meta["example"], meta["std"], meta["cxx"]))
+            if rc != 0:
+                violations.append(dict(case="// c20-program\n// compile: %s -std=%s -fsyntax-only\n%s" % (meta["cxx"], meta["std"], open(meta["src"]).read()),
+                                       message="documented example examples/%s does not compile with %s -std=%s: %s" % (meta["example"], meta["cxx"], meta["std"], first_error(log)),
+                                       key="example|%s" % meta["example"], executor="c20", config=meta["cxx"], crashed=False))
         else:
             evaluations += 1
             if meta["twice"] == 2:
@@ -178,33 +193,70 @@ def c20_job(ctx):
                 violations.append(dict(case="// c20-program\n// compile: %s -std=%s (two TUs, link and run; this is TU a)\n// second TU:\n%s\n%s" % (cxx, std, "".join("// " + l + "\n" for l in open(b).read().splitlines()), open(a).read()),
                                        message="two-translation-unit client program for label kind %s fails to %s with %s -std=%s: %s" % (kind, stage, cxx, std, first_error(log)),
                                        key="program|%s|%s" % (kind, stage), executor="c20", config=cxx, crashed=False))
+    # ---- 4. (thorough) Hypothesis-generated programs: random include orders/multiplicities, snippet subsets, 1-3 TUs
+    hyp = None
+    if tier != "quick":
+        hw = os.path.join(work, "hyp")
+        n = int(os.environ.get("VERIF_C20_PROGRAMS", "150"))
+        rc, out = run(["python3-vt", os.path.join(VERIF, "lib", "c20_hyp.py"), "--seed", str(seed), "--n", str(n), "--repo", repo, "--work", hw, "--stds", ",".join(stds)], timeout=7200)
+        try:
+            hyp = json.loads(out.strip().splitlines()[-1])
+        except Exception:
+            return dict(evaluations=evaluations, hashes=[], distinct_nontrivial_extra=len(nontrivial), violations=violations, samples=samples,
+                        broken="the Hypothesis program generator did not produce a result: %s" % out[-500:])
+        evaluations += hyp["stats"]["programs"]
+        for k in range(hyp["stats"]["nontrivial"]):
+            nontrivial.add("hyp|%d" % k)
+        samples += hyp["stats"]["samples"]
+        f = hyp.get("failure")
+        if f:
+            text = "// c20-program\n// compile: %s -std=%s mode=link\n" % (f["prog"].get("cxx", "g++"), f["prog"].get("std", "c++14"))
+            for k, src in enumerate(f["sources"]):
+                text += "// ---- TU %d ----\n%s" % (k, src)
+            violations.append(dict(case=text, message="generated client program (label kind %s, cells %s) fails to %s with %s -std=%s: %s" %
+                                   (f["prog"].get("kind"), f["cells"], f["stage"], f["prog"].get("cxx"), f["prog"].get("std"), f["first"]),
+                                   key="program|generated|%s" % f["stage"], executor="c20", config=f["prog"].get("cxx", "g++"), crashed=False))
     for kind in list(catalogue.KINDS)[:3]:
         cid, body = cells_by_kind[kind][min(5, len(cells_by_kind[kind]) - 1)]
         samples.append("cell %s: %s" % (cid, body.replace("\n", " ")[:300]))
     return dict(evaluations=evaluations, hashes=[], distinct_nontrivial_extra=len(nontrivial), violations=violations, samples=samples, exhaustive=True,
                 matrix=dict(label_kinds=list(catalogue.KINDS), standards=stds, compilers=COMPILERS, snippets=len(catalogue.S),
-                            cells_per_kind={k: len(v) for k, v in cells_by_kind.items()}, headers=len(H)), wall_s=round(time.time() - t0, 1))
+                            cells_per_kind={k: len(v) for k, v in cells_by_kind.items()}, headers=len(H)), generated_programs=(hyp or {}).get("stats"),
+                wall_s=round(time.time() - t0, 1))
 
 
 def c20_replay(pid, path, text):
-    """replay file = the failing program; recompile it against the current tree"""
+    """replay file = the failing program (one or several TUs); rebuild it against the current tree"""
     if "// c20-program" not in text:
         return None
     import re
-    m = re.search(r"^// compile: (\S+) -std=(\S+)", text, re.M)
-    cxx, std = (m.group(1), m.group(2)) if m else ("g++", "c++14")
+    import shutil
+    m = re.search(r"^// compile: (\S+) -std=(\S+)(?: mode=(\S+))?", text, re.M)
+    cxx, std, mode = (m.group(1), m.group(2), m.group(3) or "syntax") if m else ("g++", "c++14", "syntax")
     from . import runner
     scratch = runner.make_scratch()
     try:
-        p = os.path.join(scratch, "replay.cpp")
-        open(p, "w").write(text)
-        rc, log = run(compile_cmd(cxx, std, build.REPO, ["-fsyntax-only", p]))
+        parts = re.split(r"^// ---- TU \d+ ----\n", text, flags=re.M)
+        tus = parts[1:] if len(parts) > 1 else [text]
+        paths = []
+        for k, src in enumerate(tus):
+            p = os.path.join(scratch, "replay_tu%d.cpp" % k)
+            open(p, "w").write(src)
+            paths.append(p)
+        if mode == "link":
+            exe = os.path.join(scratch, "replay_prog")
+            rc, log = run(compile_cmd(cxx, std, build.REPO, ["-O0"] + paths + ["-o", exe]))
+            if rc == 0:
+                env = os.environ.copy()
+                env["VERIF_SCRATCH"] = scratch
+                rc, log = run([exe], timeout=120, env=env)
+        else:
+            rc, log = run(compile_cmd(cxx, std, build.REPO, ["-fsyntax-only"] + paths))
     finally:
-        import shutil
         shutil.rmtree(scratch, ignore_errors=True)
     print(log[-3000:])
     if rc != 0:
         print("VIOLATION property=%s replay=%s" % (pid, path))
         return 1
-    print("replay passes: the program compiles with %s -std=%s" % (cxx, std))
+    print("replay passes: the program builds%s with %s -std=%s" % (" and runs" if mode == "link" else "", cxx, std))
     return 0
